@@ -254,8 +254,9 @@ class Engine:
             if s and "/" not in s and s not in ("..", ".") and \
                     not s.startswith(("b:", "float:")):
                 # a plain file / directory name used as a path component
+                from .models import PART
                 ax.append(z3.And(z3.Not(ISABS(c)), z3.Not(HASDD(c)),
-                                 PNAME(c) == c))
+                                 PNAME(c) == c, PART(c, 0) == c))
         ax.append(z3.Not(TRUTHY(NONE_U)))
         ax.extend(self.lib.axioms())
         ax.extend(self.registry_axioms())
@@ -511,6 +512,8 @@ class Engine:
                 raise Unsupported(f"store non-list into {key}")
             es = shape[5:]
             sort = sort_of_shape(es)
+            if getattr(v, "untyped", False) and v.arr.sort().range() != sort:
+                v = self.empty_list(st, es)     # the literal []
             a = self.heap_arr(st, key + "#arr", z3.ArraySort(IntS, sort))
             st.heap[key + "#arr"] = z3.Store(a, r, v.arr)
             a = self.heap_arr(st, key + "#len", IntS)
@@ -524,6 +527,9 @@ class Engine:
                 raise Unsupported(f"store non-dict into {key}")
             vs = shape[5:]
             sort = sort_of_shape(vs)
+            if v.val is None:      # empty literal {}
+                v = VDict(v.dom, st.fresh("dval", z3.ArraySort(U, sort)), vs,
+                          lid=v.lid)
             a = self.heap_arr(st, key + "#dom", z3.ArraySort(U, BoolS))
             st.heap[key + "#dom"] = z3.Store(a, r, v.dom)
             a = self.heap_arr(st, key + "#val", z3.ArraySort(U, sort))
@@ -1096,9 +1102,8 @@ class Engine:
                 return r
             pfc = self.reg.find_method(obj.cls, attr)
             if pfc is not None and pfc.is_property:
-                if st.spec:
-                    return self.lib.apply_property_spec(st, pfc, obj)
-                return self.lib.apply_contract(st, pfc, obj, [], {}, line)
+                # a getter under contract `result is <expr>` reads as <expr>
+                return self.lib.apply_property_spec(st, pfc, obj)
             return VFunc(name=attr, bound=obj)
         r = self.lib.getattr(st, obj, attr, line)
         if r is not None:
